@@ -78,11 +78,13 @@ Definition oracle_fit (c : case) : N :=
     let X := dqm (c_X c) in
     let W := dqm (c_emb c) in
     let ks := pca_checks DQ_ops (c_n c) p (c_k c) (c_whiten c) X (dqv (c_mean c)) (dqv (c_sigma c)) W
-                         (dqv (c_ev c)) (dqv (c_evr c)) (dqm (c_X c ++ c_Q c)) (dqm (c_inv c)) in
+                         (dqv (c_ev c)) (dqv (c_evr c)) (dqm (c_X c ++ c_Q c)) (dqm (c_inv c))
+                         (dqm (firstn (length (c_X c)) (c_pred c))) in
     let full := N.eqb (N.of_nat (length (c_sigma c))) (c_k c) in
     (flag (k_mean ks) 1 + flag (k_shape ks) 2 + flag (k_sigma ks) 4 + flag (k_orth ks) 8
      + flag (k_projcov ks) (if c_whiten c then 32 else 16)
      + flag (k_ev ks) 64 + flag (k_ratio ks) 128 + flag (k_roundtrip ks) 256
+     + flag (k_scores ks) 16384
      + (if k_shape ks && k_resid ks
         then flag (k_coefs ks && lead_psd p (k_T ks) (k_M ks) && k_bound ks) (if full then 1024 else 2048)
         else flag (k_resid ks) 512))%N.
